@@ -1,6 +1,6 @@
 """C06 -- loop and if-branches only where the language allows."""
 from rules import hirq, mirq, typestate, flagstate, visit
-from rules.core import walk, norm_path, AnchorMissing
+from rules.core import walk, norm_path, AnchorMissing, CannotAnalyse
 
 LEVEL = "other"
 EXPLANATION = (
@@ -376,9 +376,79 @@ def r7_errors_merged(run, F):
     run.require(n >= 3, "statement-level Resolvable impls not found in resolver.rs (%d)" % n)
 
 
+def r8_combiners_keep_both(run, F):
+    """The functions that join two results of the resolver (`combine`, `accumulate`, the fold of Vec<T>, the pair (T1, T2)) are where
+    the diagnostics of two parts of a program meet.  Each examines both results *together* (a match on the pair) and, when both are
+    errors, hands back the errors of both; a `?` on one of the two results returns the first error list alone and drops every
+    diagnostic of the other part (the functions of a module when a constant has an error, the else branch when the condition has)."""
+    C = F.lib
+
+    def is_res(t):
+        return t is not None and C.types[t].startswith("std::result::Result<") and C.types[t].rstrip(">").endswith("alpha::error::Errors")
+    n = 0
+    for p, b in sorted(C.bodies.items()):
+        if "hir" not in b or not F.rel(b["file"]).endswith("alpha/resolver.rs"):
+            continue
+        name = p.split(" as ")[0].strip("<").split("::")[-1] + ("::" + p.split("::")[-1] if " as " in p else "")
+        pair_matches = []
+        for m in hirq.matches(b["hir"]):
+            sc = hirq.unwrap_trivial(m["scrut"])
+            if sc.get("k") == "Tup" and len(sc.get("a", [])) == 2 and all(is_res(x.get("t")) for x in sc["a"]):
+                pair_matches.append(m)
+        res_params = [q for q in b.get("params", []) if is_res((q.get("pat") or q).get("t", q.get("t")))]
+        if len(res_params) >= 2 and "{closure" not in p:
+            # a function that takes two results joins them
+            n += 1
+            tries = [x for x in walk(b["hir"]) if x.get("k") == "Match" and "Try" in str(x.get("msrc"))]
+            run.ob("R8-COMBINERS-KEEP-BOTH", name + "|no early return", not tries, F.where(b, tries[0]) if tries else F.where(b),
+                   "no `?` in a function that joins two results: it would return the first error list without the second")
+            if not pair_matches and not tries:
+                raise CannotAnalyse("R8-COMBINERS-KEEP-BOTH: %s joins two results in a form other than one match on the pair" % name)
+            run.ob("R8-COMBINERS-KEEP-BOTH", name + "|joined", len(pair_matches) >= 1, F.where(b),
+                   "%s takes %d results and examines them together in one match on the pair (found %d such matches)" % (name, len(res_params), len(pair_matches)))
+        for m in pair_matches:
+            n += 1
+            both = None
+            single = {}
+            for a in m["arms"]:
+                q = hirq.strip_ref(a["pat"])
+                if q.get("k") != "Tuple" or len(q.get("pats", [])) != 2:
+                    continue
+                kinds = []
+                for e in q["pats"]:
+                    e = hirq.strip_ref(e)
+                    r = str(e.get("res") or e.get("path") or "")
+                    kinds.append("Ok" if r.endswith("::Ok") else "Err" if r.endswith("::Err") else "?")
+                if kinds == ["Err", "Err"]:
+                    both = (a, q)
+                elif "Err" in kinds and "Ok" in kinds:
+                    single[tuple(kinds)] = (a, q)
+            ok = False
+            if both:
+                a, q = both
+                lids = [[lid for _, lid, _ in hirq.pat_bindings(e)] for e in q["pats"]]
+                ok = all(l and any(hirq.uses_local(a["body"], x) for x in l) for l in lids)
+                # the value of the arm is an Err
+                cons = [hirq.short(pp) for pp, _ in hirq.constructs(a["body"])]
+                ok = ok and any(c.endswith("Err") for c in cons)
+            run.ob("R8-COMBINERS-KEEP-BOTH", name + "|(Err, Err)", ok, F.where(b, both[0] if both else m),
+                   "when both results are errors the outcome is an Err built from the errors of both")
+            for kinds in (("Ok", "Err"), ("Err", "Ok")):
+                a, q = single.get(kinds, (None, None))
+                ok = False
+                if a:
+                    e = hirq.strip_ref(q["pats"][kinds.index("Err")])
+                    lids = [lid for _, lid, _ in hirq.pat_bindings(e)]
+                    body = hirq.unwrap_trivial(a["body"])
+                    ok = bool(lids) and body.get("k") == "Call" and (hirq.callee(body) or "").endswith("Err") and any(hirq.uses_local(body, x) for x in lids)
+                run.ob("R8-COMBINERS-KEEP-BOTH", name + "|(%s, %s)" % kinds, ok, F.where(b, a or m), "one error list: it is the outcome")
+    run.floor("R8-COMBINERS-KEEP-BOTH", 16, "obligations on the four places where two results are joined (combine, accumulate, Vec fold, pair)")
+
+
 def check(run):
     F = run.facts("B")
     r7_errors_merged(run, F)
+    r8_combiners_keep_both(run, F)
     r1_emission(run, F)
     r2_flags(run, F)
     r3_lint(run, F)
